@@ -151,6 +151,10 @@ STRINGS = ["", "a", "ab", "xyz", "héé", "日本", "1234567", "12345678", "éé
            "éèêëà", "日本語日本語日", "ß" * 9, "\U0001F600" * 3]
 
 
+class Dims(tuple):
+    """constructor arguments that are the dynamic dimensions of an array (passed as separate positional arguments)"""
+
+
 class StrVal(list):
     """string value (its bytes) that also remembers, for generation only, the capacity of the box it lives in:
     cap = bytes available for text + NUL as fixed at creation, None = unknown (e.g. after a copy of a box with slack)"""
@@ -215,12 +219,13 @@ class Gen:
     """generates (input-form value, python constructor data) for a TX.
     refchoice(tx_ref, b) -> ("null",) | ("alias", at, tid, handle) | ("new", tid) | ("foreign", tid, (b2, a2), handle)"""
 
-    def __init__(self, ns, rng, refchoice=None, maxdim=3, np_forms=True, allow_uninit=False, mindim=0, capacity_p=0.15, lookup=None):
+    def __init__(self, ns, rng, refchoice=None, maxdim=3, np_forms=True, allow_uninit=False, mindim=0, capacity_p=0.15, lookup=None, dims_p=0.1):
         self.mindim = mindim
         self.ns, self.rng, self.refchoice, self.maxdim, self.np_forms = ns, rng, refchoice, maxdim, np_forms
         self.shorter_strings = True
         self.capacity_p = capacity_p
         self.lookup = lookup
+        self.dims_p = dims_p
 
     def shape(self, tx, inarr=False):
         sh = [d if d >= 0 else max(self.mindim, self.rng.choice([0, 1, 1, 2, 2, 3][: self.maxdim + 3])) for d in tx["sh"]]
@@ -264,9 +269,24 @@ class Gen:
             vs = [self.value(tx["it"], b, None if like is None else like["it"][i], False, True) for i in range(n)]
             inp = {"sh": sh, "it": [v[0] for v in vs]}
             it = tx["it"]
+            if (it["k"] == "sc" and like is None and not _inarr and self.dims_p and rng.random() < self.dims_p
+                    and any(d < 0 for d in tx["sh"])):
+                # built from its dimensions: the items are left unspecified (whatever the memory holds)
+                dims = tuple(int(d) for d, decl in zip(sh, tx["sh"]) if decl < 0)
+                return {"sh": sh, "it": [[] for _ in range(n)]}, (Dims(dims) if len(dims) > 1 else dims[0])
             if it["k"] == "sc" and self.np_forms and not _inarr and rng.random() < 0.5:     # (a list of ndarrays is not a promised input form)
                 a = np.array([np.frombuffer(bytes(v[0]), dtype=it["np"].lower())[0] for v in vs], dtype=it["np"].lower()).reshape(sh)
                 form = rng.choice(["C", "F", "strided"]) if len(sh) > 1 or n > 1 else "C"
+                if rng.random() < 0.25 and n > 0:      # any convertible dtype: a wider type that holds the same numbers exactly
+                    for other in rng.sample(["int64", "float64", "int32", "uint64"], 4):
+                        try:
+                            with np.errstate(all="ignore"):
+                                b2 = a.astype(other)
+                                if b2.dtype != a.dtype and np.array_equal(b2.astype(a.dtype), a) and a.astype(other).astype(a.dtype).tobytes() == a.tobytes():
+                                    a = b2
+                                    break
+                        except Exception:       # noqa
+                            pass
                 if form == "F":
                     a = np.asfortranarray(a)
                 elif form == "strided":
